@@ -1816,6 +1816,7 @@ impl Harness for C20 {
     fn assumptions(&self) -> Vec<String> {
         vec![
             "Crash model is process kill (what C20 states): completed operations persist, rename is atomic; power loss / lost page cache is not modelled".into(),
+            "The simulated endpoint sends an ETag with every 200 response and answers a matching If-None-Match with 304 and no body (counted as 'this document confirmed'); one run in three is served the document the previous run was served".into(),
             "The curl stand-in reproduces libcurl's documented outcomes (18 short body, 23 short callback count, 28 timeout incl. paused transfer, 56 reset, 7 refused, 6 DNS, error-page bodies delivered to the callback)".into(),
             "One history in twelve runs with an unwritable stderr (ENOSPC on every write): eprintln! then panics as std's does, a writeln! to io::stderr() returns the error".into(),
             "std::fs::File stand-in: advisory locks (lock, lock_shared, try_lock, unlock) with flock(2) semantics: a lock belongs to the open file description, goes with its last handle or its process; a blocking lock lets the other process run".into(),
